@@ -4,7 +4,7 @@ from ..e1 import engine, gen, oracles, reduce
 
 RULE = ("programs with AsyncScopedValue.override and async_override blocks on 2 shared values/attributes, reads at generated positions, nested and concurrent "
         "overrides in many pending tasks, synchronous re-entry, failures at any step; non-trivial = >= 2 tasks held overrides of the same value across a flush "
-        "and a read happened after it; distinct = distinct program JSON")
+        "and a read happened after it; distinct = distinct program JSON. Bodies of library tools called by a task read the scoped value after their request came back.")
 ASSUMPTIONS = ["reads inside tasks awaited by two parents (and below them) are not generated: their dynamic scope is genuinely ambiguous"]
 
 
